@@ -2,7 +2,7 @@ import ComposeVerif.Model.Secrets
 /-!
 # C20 — what the property says, as predicates on trees
 
-`AllStr P v`: every mapping key and every string leaf of `v` satisfies `P`.  With
+`AllStr P v`: every mapping key, every string leaf and the text of every number / boolean of `v` satisfies `P`.  With
 `P s := ¬ canary occurs in s` this is "the canary occurs nowhere in `v`"; the theorems are
 proved for an arbitrary `P` ("untainted"), so they cover any notion of occurrence.
 
@@ -20,8 +20,8 @@ def AllStr (P : String → Prop) : Val → Prop
   | .seq xs => AllStrL P xs
   | .map kvs => AllStrKV P kvs
   | .null => True
-  | .bool _ => True
-  | .int _ => True
+  | .bool b => P (fmtV (.bool b))     -- the text a scalar is turned into when it lands in a string field / a label
+  | .int i => P (fmtV (.int i))
 def AllStrL (P : String → Prop) : List Val → Prop
   | [] => True
   | x :: xs => AllStr P x ∧ AllStrL P xs
@@ -93,7 +93,8 @@ structure FileObj.CleanBut (P : String → Prop) (o : FileObj) : Prop where
 
 /-- the keys the renderers write themselves -/
 def vocabulary : List String :=
-  ["name", "file", "environment", "content", "external", "labels", "driver", "driver_opts", "template_driver", "secrets", "configs"]
+  ["name", "file", "environment", "content", "external", "labels", "driver", "driver_opts", "template_driver", "secrets", "configs",
+   "true", "", "<nil>"]   -- `external: true`; the value of a null label / driver option; `fmt.Sprint(nil)` in a label list
 
 /-- the keys the loader writes into the raw tree -/
 def carrierKeys : List String := [xValue, extKey, "Content", "content", "name"]
@@ -106,10 +107,15 @@ def GenNamesOk (P : String → Prop) (pname sect : String) (dict : KVs) : Prop :
 def NoEmptySource (dict : KVs) : Prop :=
   ∀ objs, lookup "configs" dict = some (.map objs) → ∀ e ∈ objs, ∀ kvs, e.2 = .map kvs → lookup "environment" kvs ≠ some (.str "")
 
+/-- `P` survives `strings.Cut(s, "=")` (labels given as a list of `key=value` strings) — true of "the canary does
+not occur in `s`" (`cutClosed_not_occurs`) -/
+def CutClosed (P : String → Prop) : Prop := ∀ s, P s → P (cutEq s).1 ∧ P (cutEq s).2
+
 /-- what the theorems assume about `P`: it holds of every key the loader and the renderers write themselves -/
 structure VocabOk (P : String → Prop) : Prop where
   vocab : ∀ k ∈ vocabulary, P k
   carriers : ∀ k ∈ carrierKeys, P k
+  cut : CutClosed P
 
 /-- a heap whose allocated addresses are all below `next` -/
 def Heap.WF (h : Heap) : Prop := ∀ e ∈ h.maps, e.1 < h.next
